@@ -221,9 +221,14 @@ def lean_list(items: Iterable[str], per_line: int = 8) -> str:
 
 
 def load_known_findings() -> list[dict]:
-    if not KNOWN_FINDINGS.exists():
-        return []
-    return json.loads(KNOWN_FINDINGS.read_text()).get("findings", [])
+    """known_findings.json (+ per-property files known_findings.d/*.json). Committed; never
+    written at run time."""
+    out: list[dict] = []
+    files = [KNOWN_FINDINGS] + sorted((VERIF / "known_findings.d").glob("*.json"))
+    for f in files:
+        if f.exists():
+            out += json.loads(f.read_text()).get("findings", [])
+    return out
 
 
 def known_match(prop: str, key: dict) -> Optional[dict]:
